@@ -6,6 +6,7 @@ import (
 	"encoding/hex"
 	"encoding/json"
 	"fmt"
+	spf "github.com/lidofinance/dc4bc/fsm/state_machines/signature_proposal_fsm"
 	"os"
 	"path/filepath"
 	"sort"
@@ -211,8 +212,25 @@ func runC04(w *World, tier string) (bool, interface{}) {
 	}
 	// round B: same or different threshold; same, permuted or partly different participant list
 	membersB := append([]int(nil), members...)
-	listKind := []string{"same-list", "permuted-list", "smaller-list"}[w.Tape.Choose(3, "listKind")]
+	listKind := []string{"same-list", "permuted-list", "smaller-list", "same-list", "permuted-list", "smaller-list", "keys-swapped-between-names"}[w.Tape.Choose(7, "listKind")]
 	switch listKind {
+	case "keys-swapped-between-names":
+		// the second proposal lists two users under each other's key-generation key
+		// (machines swapped, or a proposer's slip): that round cannot complete, but a
+		// deal labelled for a user must still be sealed to the key this round lists
+		// for that user and to no other
+		x := w.Tape.Choose(n, "swapA")
+		y := (x + 1 + w.Tape.Choose(n-1, "swapB")) % n
+		w.DkgKeyOf = func(i int) []byte {
+			switch i {
+			case x:
+				return w.Airs[y].PubKeyBytes()
+			case y:
+				return w.Airs[x].PubKeyBytes()
+			}
+			return w.Airs[i].PubKeyBytes()
+		}
+		w.Stats.Fault("keys-swapped-between-names")
 	case "permuted-list":
 		p := permOf(w, n)
 		for i := range membersB {
@@ -238,6 +256,7 @@ func runC04(w *World, tier string) (bool, interface{}) {
 	}
 	w.Advance(2e9)
 	roundB, repB := c.StartDKG(membersB[w.Tape.Choose(len(membersB), "proposerB")], tB, membersB)
+	w.DkgKeyOf = nil
 	if !repB.OK() || roundB == roundA {
 		return false, "round B not started"
 	}
@@ -469,6 +488,25 @@ func runC04(w *World, tier string) (bool, interface{}) {
 // machine it is addressed to and with no other machine's key.
 func checkDealAddressees(w *World) int {
 	deals := 0
+	// the key each round lists for each user name (its opening proposal)
+	listed := map[string]map[string][]byte{}
+	for _, m := range w.Board.Msgs {
+		if m.Event != string(spf.EventInitProposal) {
+			continue
+		}
+		var req requests.SignatureProposalParticipantsListRequest
+		if json.Unmarshal(m.Data, &req) != nil {
+			continue
+		}
+		if listed[m.DkgRoundID] == nil {
+			listed[m.DkgRoundID] = map[string][]byte{}
+			for _, p := range req.Participants {
+				if p != nil {
+					listed[m.DkgRoundID][p.Username] = p.DkgPubKey
+				}
+			}
+		}
+	}
 	for _, m := range w.Board.Msgs {
 		if m.Event != "event_dkg_deal_confirm_received" || m.RecipientAddr == "" {
 			continue
@@ -477,19 +515,24 @@ func checkDealAddressees(w *World) int {
 		if json.Unmarshal(m.Data, &req) != nil || string(req.Deal) == "self-confirm" {
 			continue
 		}
+		key := listed[m.DkgRoundID][m.RecipientAddr]
 		for j, a := range w.Airs {
 			if a == nil || a.M == nil || j >= len(w.Nodes) {
 				continue
 			}
-			if w.Nodes[j].Name == m.RecipientAddr {
+			addressee := w.Nodes[j].Name == m.RecipientAddr
+			if key != nil {
+				addressee = bytes.Equal(a.PubKeyBytes(), key)
+			}
+			if addressee {
 				if _, err := a.M.SimDecrypt(req.Deal); err != nil {
-					w.Fail("C04", "deal-not-decryptable-by-addressee", fmt.Sprintf("deal for %q cannot be opened with its own key: %v", m.RecipientAddr, err))
+					w.Fail("C04", "deal-not-decryptable-by-addressee", fmt.Sprintf("the deal sent by %q for %q in round %.6s cannot be opened with the key that round lists for %q: %v", m.SenderAddr, m.RecipientAddr, m.DkgRoundID, m.RecipientAddr, err))
 				}
 				continue
 			}
 			deals++
 			if pt, err := a.M.SimDecrypt(req.Deal); err == nil {
-				w.Fail("C04", "deal-decryptable-by-non-addressee", fmt.Sprintf("the deal sent by %q to %q opens with the key of %q (%d bytes of plaintext)", m.SenderAddr, m.RecipientAddr, w.Nodes[j].Name, len(pt)))
+				w.Fail("C04", "deal-decryptable-by-non-addressee", fmt.Sprintf("the deal sent by %q to %q in round %.6s opens with the key of %q's machine (%d bytes of plaintext)", m.SenderAddr, m.RecipientAddr, m.DkgRoundID, w.Nodes[j].Name, len(pt)))
 			}
 		}
 	}
